@@ -328,3 +328,173 @@ func IsField(owner string) func(v ssa.Value) bool {
 func IsFieldAddr(owner string) func(*ssa.FieldAddr) bool {
 	return func(v *ssa.FieldAddr) bool { return FieldOwner(v) == owner }
 }
+
+// allocRoot returns the local Alloc an address is derived from through
+// FieldAddr / IndexAddr / Slice steps (nil when the address is not rooted in a local).
+func allocRoot(addr ssa.Value) *ssa.Alloc {
+	for i := 0; i < 16; i++ {
+		switch x := addr.(type) {
+		case *ssa.Alloc:
+			return x
+		case *ssa.FieldAddr:
+			addr = x.X
+		case *ssa.IndexAddr:
+			addr = x.X
+		case *ssa.Slice:
+			addr = x.X
+		default:
+			return nil
+		}
+	}
+	return nil
+}
+
+// storesInto lists every store whose address is rooted in the local alloc (whole object treated as one blob).
+func storesInto(al *ssa.Alloc) []*ssa.Store {
+	var out []*ssa.Store
+	seen := map[ssa.Value]bool{}
+	var visit func(v ssa.Value)
+	visit = func(v ssa.Value) {
+		if seen[v] || v.Referrers() == nil {
+			return
+		}
+		seen[v] = true
+		for _, r := range *v.Referrers() {
+			switch x := r.(type) {
+			case *ssa.Store:
+				if x.Addr == v {
+					out = append(out, x)
+				}
+			case *ssa.FieldAddr:
+				if x.X == v {
+					visit(x)
+				}
+			case *ssa.IndexAddr:
+				if x.X == v {
+					visit(x)
+				}
+			case *ssa.Slice:
+				if x.X == v {
+					visit(x)
+				}
+			}
+		}
+	}
+	visit(al)
+	return out
+}
+
+// Backward computes the backward value-flow closure of v inside its function:
+// every SSA value v may be computed from. Local memory (Allocs, including
+// composite literals and varargs arrays) is followed through the stores into it;
+// append() passes through all its arguments; other calls are leaves (they are in
+// the set, their arguments are not followed).
+func Backward(v ssa.Value) map[ssa.Value]bool { return BackwardOpt(v, nil) }
+
+// BackwardOpt is Backward with a choice of calls whose arguments (and callee value) are followed too.
+func BackwardOpt(v ssa.Value, followCall func(*ssa.Call) bool) map[ssa.Value]bool {
+	set := map[ssa.Value]bool{}
+	var visit func(x ssa.Value)
+	visit = func(x ssa.Value) {
+		if x == nil || set[x] {
+			return
+		}
+		set[x] = true
+		switch t := x.(type) {
+		case *ssa.Phi:
+			for _, e := range t.Edges {
+				visit(e)
+			}
+		case *ssa.UnOp:
+			visit(t.X)
+			if t.Op == token.MUL {
+				if al := allocRoot(t.X); al != nil {
+					visit(al)
+				}
+			}
+		case *ssa.Alloc:
+			for _, s := range storesInto(t) {
+				visit(s.Val)
+			}
+		case *ssa.BinOp:
+			visit(t.X)
+			visit(t.Y)
+		case *ssa.Convert:
+			visit(t.X)
+		case *ssa.ChangeType:
+			visit(t.X)
+		case *ssa.ChangeInterface:
+			visit(t.X)
+		case *ssa.MakeInterface:
+			visit(t.X)
+		case *ssa.TypeAssert:
+			visit(t.X)
+		case *ssa.Extract:
+			visit(t.Tuple)
+		case *ssa.Field:
+			visit(t.X)
+		case *ssa.FieldAddr:
+			visit(t.X)
+		case *ssa.Index:
+			visit(t.X)
+		case *ssa.IndexAddr:
+			visit(t.X)
+		case *ssa.Slice:
+			visit(t.X)
+		case *ssa.Lookup:
+			visit(t.X)
+		case *ssa.Next:
+			visit(t.Iter)
+		case *ssa.Range:
+			visit(t.X)
+		case *ssa.Call:
+			if b, ok := t.Call.Value.(*ssa.Builtin); ok && (b.Name() == "append" || b.Name() == "min" || b.Name() == "max") {
+				for _, a := range t.Call.Args {
+					visit(a)
+				}
+			} else if followCall != nil && followCall(t) {
+				if !t.Call.IsInvoke() {
+					if _, isFn := t.Call.Value.(*ssa.Function); !isFn {
+						visit(t.Call.Value)
+					}
+				} else {
+					visit(t.Call.Value)
+				}
+				for _, a := range t.Call.Args {
+					visit(a)
+				}
+			}
+		}
+	}
+	visit(v)
+	return set
+}
+
+// AnyIn reports whether some value of the set satisfies pred.
+func AnyIn(set map[ssa.Value]bool, pred func(ssa.Value) bool) bool {
+	for v := range set {
+		if pred(v) {
+			return true
+		}
+	}
+	return false
+}
+
+// LoadOfField matches loads (or Field extractions) of the struct field "pkg.Struct.Field".
+func LoadOfField(owner string) func(ssa.Value) bool {
+	return func(v ssa.Value) bool {
+		switch x := v.(type) {
+		case *ssa.UnOp:
+			if x.Op == token.MUL {
+				if fa, ok := x.X.(*ssa.FieldAddr); ok {
+					return FieldOwner(fa) == owner
+				}
+			}
+		case *ssa.Field:
+			return FieldOwner(x) == owner
+		case *ssa.FieldAddr:
+			return FieldOwner(x) == owner
+		}
+		return false
+	}
+}
